@@ -52,7 +52,7 @@ EXPLANATION = (
     "stale responses flushed before sending; R5 configure/inquire: specifier mismatch and non-zero error code raise "
     "LssError before the normal exit, silence raises LssError; R6 ListMessageNeedResponse equals the set of confirmed "
     "services; fast scan: probe order and constants (bit check 128 first, bits 31..0, LSSNext = (sub + 1) mod 4 "
-    "evaluated for sub = 0..3, bit set exactly when unanswered, success returns the four accumulated words)."
+    "evaluated for sub = 0..3, bit set exactly when unanswered, success returns the four accumulated words). R7 no class-level mutable object is mutated in place by instances (each node/client/map/dictionary has its own state)."
 )
 ASSUMPTIONS = [
     "not decided: the 128-bit search result against a slave model, timing (sleep) requirements of slaves",
@@ -254,6 +254,10 @@ def run(chk):
               f"confirmed services {sorted(hex(x) for x in (lst or []))}; builders that read a response need {sorted(hex(x) for x in O.LSS_CONFIRMED)}")
     chk.analysed_tables.append("ListMessageNeedResponse")
     _fast_scan(chk, repo, folder, sc)
+
+    # ------------------------------------------------------------------ R7 instances are independent (shared clause)
+    from . import shared as _shared
+    _shared.isolation(chk, "R7", rels=['canopen/lss.py'])
 
 
 def _spec_fact(ff, at, buf: str, const: str) -> bool:
